@@ -148,6 +148,9 @@ func (c Case) relDB() promsrv.RelDB {
 	lbSec := int64(c.lookback().Seconds())
 	db := promsrv.RelDB{StepSec: 60}
 	for _, s := range c.Series {
+		if s.Pattern == "just_now" {
+			continue
+		}
 		db.Series = append(db.Series, promsrv.RelSeries{Labels: s.Labels, Spans: spansFor(s.Pattern, lbSec), Value: s.Value})
 	}
 	up := map[string]string{"__name__": "up", "job": "j"}
@@ -605,8 +608,26 @@ func check(c Case) (out outcome, err error) {
 	}
 	out.Selectors = sels
 	anchor := time.Now()
+	justNow := false
+	for _, sp := range c.Series {
+		justNow = justNow || sp.Pattern == "just_now"
+	}
+	if justNow && anchor.Second() < justNowAgeSec+2 {
+		// "just appeared" = the first sample is justNowAgeSec old AND newer than the last full wall-clock minute;
+		// in the first seconds of a minute there is no room for that, so wait them out (keeps the case independent
+		// of the second of the minute it happens to run at)
+		time.Sleep(time.Duration(justNowAgeSec+2-anchor.Second()) * time.Second)
+		anchor = time.Now()
+	}
 	c = c.aligned(anchor)
 	db := c.relDB().At(anchor)
+	for _, sp := range c.Series {
+		if sp.Pattern == "just_now" {
+			// first sample justNowAgeSec before now, then one per minute until an hour past now
+			first := anchor.UnixMilli() - justNowAgeSec*1000
+			db.AddGrid(sp.Labels, first, anchor.UnixMilli()+hour*1000, 60_000, sp.Value)
+		}
+	}
 	srv := promsrv.Shared() // cases run one at a time within a process
 	srv.SetDB(db)
 	srv.ResetLog()
@@ -844,7 +865,7 @@ var (
 	labelsAB  = []string{"a", "b"}
 	matchVals = []string{"1", "2"}
 	regexVals = []string{"1|2", "2|3", ".+", "1.*"}
-	patterns  = []string{"now", "never", "other", "gone_old", "gone_recent", "flap_on", "flap_off", "old_only", "old_flap", "long_gone", "late"}
+	patterns  = []string{"now", "never", "other", "gone_old", "gone_recent", "flap_on", "flap_off", "old_only", "old_flap", "long_gone", "late", "just_now"}
 )
 
 type selSpec struct {
@@ -951,6 +972,9 @@ func genExpr(t *rapid.T) (string, []selSpec) {
 
 const hour = 3600
 
+// justNowAgeSec is the age of the first sample of a "just_now" series when the case starts.
+const justNowAgeSec = 2
+
 func spansFor(pattern string, lbSec int64) []promsrv.RelSpan {
 	start := -(lbSec + hour)
 	switch pattern {
@@ -974,6 +998,8 @@ func spansFor(pattern string, lbSec int64) []promsrv.RelSpan {
 		return out
 	case "late":
 		return []promsrv.RelSpan{{FromSec: -90 * 60, ToSec: hour}}
+	case "just_now": // not on the minute grid: materialised by justNowPoints when the case runs
+		return nil
 	case "flap_on", "flap_off":
 		// 40 minutes on, 40 minutes off; "now" sits in the middle of an on (or off) phase
 		var out []promsrv.RelSpan
@@ -1129,7 +1155,7 @@ func genCase(t *rapid.T) Case {
 // patternGroup folds the presence patterns into the five situations the oracles distinguish.
 func patternGroup(p string) string {
 	switch p {
-	case "now", "late", "flap_on":
+	case "now", "late", "flap_on", "just_now":
 		return "present"
 	case "never", "long_gone":
 		return "empty"
